@@ -105,3 +105,80 @@ def no_shared_default_writes(ctx, rule, files, allow=()):
     ctx.ob(rule, "process-wide objects", f"{n} functions in {len(files)} file(s): no in-place write to a class-level attribute or a memoised value",
            file=sorted(files)[0] if files else "")
     return n
+
+
+def single_pass(ctx, rule, files):
+    """no generator / map / filter object is consumed twice on one path (the second consumer would see nothing)"""
+    from . import iterreuse
+    files = set(files)
+    n = 0
+    for fi in _funcs_of(ctx.program, files):
+        n += 1
+        for name, d, u1, u2, what in iterreuse.findings(ctx.program, fi):
+            ctx.fail(rule, fi, f"consumed-twice:{fi.name}",
+                     f"{fi.qual}: `{name}` is {what} (line {d.lineno}); it is consumed at line {u1.lineno} and again at line {u2.lineno} on the same path: "
+                     f"the second consumer gets nothing", node=u2)
+    ctx.ob(rule, "single-pass iterables", f"{n} functions in {len(files)} file(s): no single-pass iterable is consumed twice on one path", file=sorted(files)[0] if files else "")
+    return n
+
+
+def format_templates(ctx, rule, files):
+    """no call builds a %-format template out of data (f-string with a %-directive plus further arguments)"""
+    from . import fmtmix
+    files = set(files)
+    n = 0
+    for fi in _funcs_of(ctx.program, files):
+        if ".<locals>." in fi.qual:
+            continue
+        n += 1
+        for call, vals in fmtmix.findings(fi.node):
+            ctx.fail(rule, fi, f"data-in-format-template:{fi.name}",
+                     f"{fi.qual}: `{A_unparse(call.func)}` receives an f-string that interpolates {vals} AND carries a %-directive for its further arguments: "
+                     f"a '%' in the interpolated value is read as a directive and formatting raises (swallowed by suppress_exceptions callers: the action is skipped)", node=call)
+    ctx.ob(rule, "format templates", f"{n} functions in {len(files)} file(s): no %-template is assembled from data", file=sorted(files)[0] if files else "")
+    return n
+
+
+def A_unparse(n):
+    import ast
+    try:
+        return ast.unparse(n)
+    except Exception:
+        return "?"
+
+
+# ---- the generic pack, run for every property on the Python files its anchors name --------------------------------------
+REGISTRIES = {
+    ("EAPI.register", "class:known_eapis"): "the EAPI registry: registering IS the class-level write",
+    ("EAPI.register", "class:unknown_eapis"): "registry of placeholder EAPIs, same",
+    ("ParseEclassDoc.__init_subclass__", "class:blocks"): "doc-block parser registry filled at class creation",
+    ("resolver_stack.pop_frame", "class:parent"): "frame.parent is per-frame state (attribute of a slot object), mis-tagged as class level",
+}
+_PROPS = None
+
+
+def anchor_files(prop):
+    global _PROPS
+    if _PROPS is None:
+        import json, os
+        here = os.path.dirname(os.path.dirname(os.path.dirname(os.path.abspath(__file__))))
+        _PROPS = {}
+        for line in open(os.path.join(here, "properties.jsonl")):
+            p = json.loads(line)
+            _PROPS[p["id"]] = [f for f in p["anchors"]["files"] if f.endswith(".py")]
+    return _PROPS.get(prop, [])
+
+
+def hygiene(ctx):
+    """Rule G: structural hazards that break "the result depends on the stated inputs only" wherever they occur —
+    shifted optional flags, closures outliving their loop iteration, single-pass iterables consumed twice, %-templates
+    assembled from data, in-place writes to class-level or memoised objects.  Each is decided from the source; on the
+    tree as it stands none occurs in any anchored file, so every finding is new."""
+    files = [f for f in anchor_files(ctx.prop) if f in ctx.program.by_rel]
+    if not files:
+        return
+    arg_binding(ctx, "G", files)
+    late_binding(ctx, "G", files)
+    single_pass(ctx, "G", files)
+    format_templates(ctx, "G", files)
+    no_shared_default_writes(ctx, "G", files, allow=set(REGISTRIES))
